@@ -160,6 +160,13 @@ func (s *segmentMetadata) getIndex(vecIdx VectorIndex, txtIdx TextIndex, metaIdx
 		return nil, fmt.Errorf("index does not implement io.ReaderFrom")
 	}
 
+	// ReadFrom consumes exactly the index's own bytes. Read on to the end of the streams so
+	// that the gzip trailer (CRC and length) of the last component file is verified too: a
+	// component cut short inside its trailer must make the whole segment unreadable.
+	if _, err := io.Copy(io.Discard, combinedReader); err != nil {
+		return nil, fmt.Errorf("failed to verify segment files: %w", err)
+	}
+
 	verifPoint("getIndex:after-ReadFrom")
 	// Cache the loaded index
 	s.cachedIndex = idx
